@@ -205,6 +205,13 @@ func probeFlight(p flightArg) (string, string) {
 	if string(ta) != wa || string(tb) != wb || string(fa) != "v"+wa || string(fb) != wb {
 		return "text_overwritten_by_later_call", fmt.Sprintf("texts of %q and %q kept across later calls read %q, %q, %q, %q", p.A, p.B, ta, tb, fa, fb)
 	}
+	// the caller may write into a returned slice: later calls must not be affected by that
+	defer mc.Scribble(ta, tb, fa, fb)()
+	ta2, _ := va.MarshalText()
+	fb2, _ := sem.DefaultFormatter(nil, vb, 0)
+	if string(ta2) != wa || string(fb2) != wb || va.String() != wa || vb.StringTag() != "v"+wb {
+		return "text_affected_by_caller_writing_into_earlier_result", fmt.Sprintf("after the caller overwrote earlier results: MarshalText = %q (want %q), DefaultFormatter = %q (want %q)", ta2, wa, fb2, wb)
+	}
 	return "", ""
 }
 
